@@ -150,6 +150,18 @@ var gadgets = []gadget{
 			return exprtools.NewWidthGadget(o[0], expr.Width(aux+1))
 		},
 		ref: func(v []*big.Int, w int, aux int) (*big.Int, int) { return refir.Adjust(v[0], aux+1), aux + 1 }},
+	// a width gadget on top of a width gadget (narrow then widen, widen then narrow, ...):
+	// aux encodes the two widths (both from the boundary set)
+	{name: "WidthGadgetChain", nOps: 1, auxMax: func(w int) int { return len(gen.BoundaryWidths)*len(gen.BoundaryWidths) - 1 },
+		build: func(o []expr.Expr, w expr.Width, aux int) expr.Expr {
+			n := len(gen.BoundaryWidths)
+			return exprtools.NewWidthGadget(exprtools.NewWidthGadget(o[0], gen.BoundaryWidths[aux/n]), gen.BoundaryWidths[aux%n])
+		},
+		ref: func(v []*big.Int, w int, aux int) (*big.Int, int) {
+			n := len(gen.BoundaryWidths)
+			w1, w2 := int(gen.BoundaryWidths[aux/n]), int(gen.BoundaryWidths[aux%n])
+			return refir.Adjust(refir.Adjust(v[0], w1), w2), w2
+		}},
 }
 
 // operand value classes for width w
